@@ -562,6 +562,35 @@ def generalize(v, ob, terms, prefix="gen"):
     return ob
 
 
+def only(v, ob, hyps):
+    """Use exactly the given hypotheses, each of which must literally be a hypothesis of the current path
+    (checked structurally), i.e. a subset of the path hypotheses: sound."""
+    ids = {h.get_id() for h in v.st.pc}
+    for h in hyps:
+        if h.get_id() not in ids:
+            raise AssertionError("only(): not a path hypothesis: %s" % str(h)[:200])
+    ob.hyps = list(hyps)
+    return ob
+
+
+def axioms_of(v, app):
+    """Path hypotheses that talk about the uninterpreted application `app` (and applications nested in it) only."""
+    i, inside = app.get_id(), _uf_atoms(app)
+    out = []
+    for h in v.st.pc:
+        at = _uf_atoms(h)
+        if i in at and at <= inside:
+            out.append(h)
+    return out
+
+
+def acos_axioms(v, y):
+    """The (guarded) axioms of the acos application y on this path: cos(y)=x, sin(y)>=0, sin^2+cos^2=1, 0<=y<=pi."""
+    RR = z3.RealSort()
+    allowed = _uf_atoms(y) | {v.eng.uf("cos", RR, RR)(y).get_id(), v.eng.uf("sin", RR, RR)(y).get_id()}
+    return [h for h in v.st.pc if y.get_id() in _uf_atoms(h) and _uf_atoms(h) <= allowed]
+
+
 def _tsize(t, cap=5000):
     seen, stack, n = set(), [t], 0
     while stack and n < cap:
@@ -788,25 +817,99 @@ for _branch in ("bound", "unbound"):
             return
         RR = z3.RealSort()
         cosf, sinf = E.uf("cos", RR, RR), E.uf("sin", RR, RR)
-        base = [x for pr in trig for x in pr] + [Hs]                   # atoms of the hypotheses (forward contract)
+        fr_pos, f_rpos, f_dist, f_visviva = facts[0], facts[1], facts[2], facts[3]
+        f_h, f_ecc = facts[4:7], facts[7:10]
+        trig_id = {nm: s_ * s_ + c_ * c_ == 1 for nm, (s_, c_) in zip(("Omega", "inc", "omega", "f"), trig)}
+
+        def hyp(x):          # the path hypothesis structurally equal to x (assumed above)
+            for h_ in v.st.pc:
+                if h_.eq(x):
+                    return h_
+            raise AssertionError("not assumed: %s" % str(x)[:100])
         # distance
-        generalize(v, focus(v.prove("d_is_r", o.d == r, order=("z3",)), extra=base), [r, _dot(d, d)])
+        generalize(v, only(v, v.prove("d_is_r", o.d == r, order=("z3",)), axioms_of(v, o.d) + [hyp(f_rpos), hyp(f_dist)]),
+                   [r, _dot(d, d)])
         v.assume(o.d == r)
+        d_is_r = v.st.pc[-1]
         # semi-major axis
-        focus(v.prove("a", o.a == a, order=PZ), extra=base)
+        only(v, v.prove("a", o.a == a, order=PZ), [hyp(f_visviva), d_is_r])
         v.assume(o.a == a)
         # eccentricity vector and eccentricity
         oe = (o.evec.x, o.evec.y, o.evec.z)
+        ev_facts = []
         for k, c in enumerate("xyz"):
-            focus(v.prove("evec." + c, oe[k] == e * peri[k], order=PZ), extra=base)
-        for k in range(3):
+            only(v, v.prove("evec." + c, oe[k] == e * peri[k], order=PZ), [hyp(f_ecc[k]), d_is_r])
             v.assume(oe[k] == e * peri[k])
-        focus(v.prove("e_sq", o.e * o.e == e * e, order=PZ), extra=base)
-        v.assume(o.e * o.e == e * e)
-        generalize(v, small_hyps(focus(v.prove("e", o.e == e, order=("z3",))), 30), [o.e])
+            ev_facts.append(v.st.pc[-1])
+        generalize(v, only(v, v.prove("evec_norm", _dot(oe, oe) == e * e, order=PZ),
+                           ev_facts + [hyp(trig_id[k_]) for k_ in ("Omega", "inc", "omega")]), list(oe))
+        v.assume(_dot(oe, oe) == e * e)
+        evn = v.st.pc[-1]
+        only(v, v.prove("e_def", z3.And(o.e * o.e == _dot(oe, oe), o.e >= 0), order=("z3",)), axioms_of(v, o.e))
+        v.assume(o.e * o.e == _dot(oe, oe), o.e >= 0)
+        generalize(v, only(v, v.prove("e", o.e == e, order=("z3",)), [v.st.pc[-2], v.st.pc[-1], evn, hyp(e >= 0)]),
+                   [o.e, _dot(oe, oe)])
         v.assume(o.e == e)
         # angular momentum
-        focus(v.prove("h_sq", o.h * o.h == Hs * Hs, order=PZ), extra=base)
+        only(v, v.prove("h_sq", o.h * o.h == Hs * Hs, order=PZ),
+             axioms_of(v, o.h) + [hyp(x) for x in f_h] + [hyp(trig_id[k_]) for k_ in ("Omega", "inc")])
         v.assume(o.h * o.h == Hs * Hs)
-        generalize(v, small_hyps(focus(v.prove("h", o.h == Hs, order=("z3",)), extra=[Hs]), 30), [o.h, Hs])
+        generalize(v, only(v, v.prove("h", o.h == Hs, order=("z3",)), axioms_of(v, o.h) + axioms_of(v, Hs) + [v.st.pc[-1]]),
+                   [o.h, Hs, _dot(h, h)])
         v.assume(o.h == Hs)
+        h_is_Hs = v.st.pc[-1]
+        mu_pos = [hyp(G > 0), hyp(p.m >= 0), hyp(prim.m > R(TINY))]
+        only(v, v.prove("h_positive", Hs > 0, order=("z3",)), axioms_of(v, Hs) + [hyp(fr_pos)] + mu_pos)
+        v.assume(Hs > 0)
+        Hs_pos = v.st.pc[-1]
+        # --- inclination: cos(o.inc) = cos(inc); o.inc in [0, pi] is from_particle.ranges
+        hz, hh, _dis, inc_ret = calls[0]
+        generalize(v, only(v, v.prove("inc.cosine_arg", hz / hh == ci, order=("z3",)), [hyp(f_h[2]), h_is_Hs, Hs_pos]), [Hs])
+        v.assume(hz / hh == ci)
+        carg = v.st.pc[-1]
+        yi = _find_apps(inc_ret, "m_acos")
+        ax = [h_ for y in yi for h_ in acos_axioms(v, y)]
+        gens = [hz / hh] + [y.arg(0) for y in yi] + [hh]
+        generalize(v, only(v, v.prove("inc.cos", z3.Implies(z3.And(ci > -1, ci < 1), cosf(z3.simplify(inc_ret)) == ci),
+                                      order=("z3",)), ax + [carg, Hs_pos, h_is_Hs]), gens)
+        generalize(v, only(v, v.prove("inc.poles", z3.And(z3.Implies(ci >= 1, o.inc == 0), z3.Implies(ci <= -1, o.inc == R(PI))),
+                                      order=("z3",)), ax + [carg, Hs_pos, h_is_Hs]), gens)
+        # --- ascending node, for sin(inc) > 0 (inc in (0, pi); for sin(inc) < 0 the node is reported at Omega + pi)
+        nx, nn, ny, Om_ret = calls[1]
+        sipos = si > 0
+        only(v, v.prove("node.nx", nx == Hs * si * cO, order=PZ), [hyp(f_h[1])])
+        only(v, v.prove("node.ny", ny == Hs * si * sO, order=PZ), [hyp(f_h[0])])
+        v.assume(nx == Hs * si * cO, ny == Hs * si * sO)
+        nxy = [v.st.pc[-2], v.st.pc[-1]]
+        only(v, v.prove("node.n_sq", nn * nn == Hs * Hs * si * si, order=PZ), axioms_of(v, nn) + nxy + [hyp(trig_id["Omega"])])
+        v.assume(nn * nn == Hs * Hs * si * si)
+        generalize(v, only(v, v.prove("node.n", z3.Implies(sipos, nn == Hs * si), order=("z3",)),
+                           [h_ for h_ in axioms_of(v, nn) if not z3.is_eq(h_)] + [v.st.pc[-1], Hs_pos]), [nn, Hs])
+        v.assume(z3.Implies(sipos, nn == Hs * si))
+        nfact = v.st.pc[-1]
+        generalize(v, only(v, v.prove("node.cosine_arg", z3.Implies(sipos, nx / nn == cO), order=("z3",)),
+                           [nxy[0], v.st.pc[-1], Hs_pos]), [nx, nn, Hs])
+        v.assume(z3.Implies(sipos, nx / nn == cO))
+        narg = v.st.pc[-1]
+        generalize(v, only(v, v.prove("node.disambiguator", z3.Implies(sipos, (ny < 0) == (sO < 0)), order=("z3",)),
+                           [nxy[1], Hs_pos]), [ny, Hs])
+        v.assume(z3.Implies(sipos, (ny < 0) == (sO < 0)))
+        ndis = v.st.pc[-1]
+        yo = _find_apps(Om_ret, "m_acos")
+        ax = [h_ for y in yo for h_ in acos_axioms(v, y)]
+        npar = len(v.st.pc)
+        for y in yo:
+            _parity(v, y)
+        par = v.st.pc[npar:]
+        O_ = z3.simplify(Om_ret)
+        gens = [nx / nn] + [y.arg(0) for y in yo] + [nn, ny]
+        interior = z3.And(sipos, cO > -1, cO < 1)
+        generalize(v, only(v, v.prove("node.cos", z3.Implies(interior, cosf(O_) == cO), order=("z3",)),
+                           ax + par + [narg, ndis, nfact, Hs_pos]), gens)
+        generalize(v, only(v, v.prove("node.sin", z3.Implies(interior, sinf(O_) == sO), order=("z3",)),
+                           ax + par + [narg, ndis, nfact, Hs_pos, hyp(trig_id["Omega"])]), gens)
+
+P.not_decided.append("round trip of omega, f (and M, l, theta) through reb_particle_from_orbit_err -> reb_orbit_from_particle_err: "
+                     "needs the addition theorems for omega+f and the inverse of Kepler's equation; only a, e, |h|, cos(inc), "
+                     "(cos,sin)(Omega) are proved to be read back (plus the defining relations of the other elements on the "
+                     "inverse map alone)")
